@@ -97,11 +97,13 @@ CHECKS = {
         level="model_checking",
         engine="H",
         technique="exhaustive enumeration of the jump-hash key space (all 2^32 keys x pool sizes in the thorough tier) on the real function + exhaustive enumeration of pools, eligible subsets, address spellings and perturbations through the real ServeHTTP + append histories",
-        text="The real jumpHash is called for every key of the enumerated space (quick: one seed-selected 2^26 block x n<=8; thorough: all 2^32 keys x n<=16, which is the whole input space since the strategy feeds it 32-bit FNV values) and checked for range and for moving only to the new bucket when the pool grows. Through ServeHTTP: pools 1..6 (8) x every ejected subset (n<=5) x 11 client addresses x 7 identity-preserving spellings (RemoteAddr ports, X-Forwarded-For single/list/optional whitespace, X-Real-IP) x path/method/header perturbations with other clients interleaved: same backend, always listed and eligible; 9 junk strings in all three places: a valid eligible backend; append history 1->8 re-asking 1024 (4096) enumerated clients after each append: keep or move to the appended backend; two concurrent clients under all interleavings with one preemption.",
+        text="The real jumpHash is called for every key of the enumerated space (quick: one seed-selected 2^26 block x n<=8; thorough: all 2^32 keys x n<=16, which is the whole input space since the strategy feeds it 32-bit FNV values) and checked for range and for moving only to the new bucket when the pool grows. Through ServeHTTP: pools 1..6 (8) x every ejected subset (n<=5) x 11 client addresses x 7 identity-preserving spellings (RemoteAddr ports, X-Forwarded-For single/list/optional whitespace, X-Real-IP) x path/method/header perturbations with other clients interleaved: same backend, always listed and eligible; 9 junk strings in all three places: a valid eligible backend; append history 1->8 re-asking 1024 (4096) enumerated clients after each append: keep or move to the appended backend; two concurrent clients under all interleavings up to the preemption bound, in a normal and in a -race build (shared scratch state between concurrent picks shows up as a data race on an explored schedule).",
         note="Which spellings denote the same client address follows utils.GetClientIP's documented attribution (first X-Forwarded-For element trimmed, then X-Real-IP, then the peer host).",
         jobs=[
             dict(name="c06jump", part="Jump", pkg=LB, run="TestVerifC06Jump", mode="instr", shards=dict(quick=16, thorough=16), timeout=dict(quick=600, thorough=3000)),
-            dict(name="c06h", part="H", pkg=LB, run="TestVerifC06", mode="instr", shards=dict(quick=5, thorough=5), timeout=dict(quick=600, thorough=3000)),
+            dict(name="c06h", part="H", pkg=LB, run="TestVerifC06", mode="instr", shards=dict(quick=3, thorough=3), timeout=dict(quick=600, thorough=3000)),
+            dict(name="c06s", part="S", pkg=LB, run="TestVerifC06S", mode="instr", shards=2, timeout=dict(quick=600, thorough=3000)),
+            dict(name="c06race", part="Race", pkg=LB, run="TestVerifC06S", mode="instr", race=True, shards=2, timeout=dict(quick=600, thorough=3000)),
         ],
         assumptions=[],
     ),
@@ -204,12 +206,14 @@ CHECKS = {
     ),
     "C16": dict(
         level="exploration",
-        engine="W",
+        engine="W+S",
         technique="exhaustive enumeration of the product of ID toggles, header names, client value shapes, response paths and backend echo over real connections + enumerated entropy blocks through the real generator",
-        text="Full product over real connections: request_id on/off x trace on/off x header names {default, custom, custom spelled in lower case by the client} x eight response paths, each on its own Helios instance brought into the state that produces it (proxied 200 and 500, refused 502, rate-limited 429, no-healthy-backend 503, breaker-open 503, size_limit 413, custom-auth 401) x seven client value shapes (absent, simple, 200 characters, inner space, non-ASCII, empty, two header lines) x backend silent or echoing. Enabled: the header is on every response, equals the first client-supplied value when there is one, and equals what the backend received; disabled: neither generated nor altered in either direction. Uniqueness is decided relative to the entropy source: crypto/rand.Reader is replaced by enumerating sources (every single-byte variation of a 12-byte block; 40 000 consecutive counter blocks) and every generated ID must be distinct.",
+        text="Full product over real connections: request_id on/off x trace on/off x header names {default, custom, custom spelled in lower case by the client} x eight response paths, each on its own Helios instance brought into the state that produces it (proxied 200 and 500, refused 502, rate-limited 429, no-healthy-backend 503, breaker-open 503, size_limit 413, custom-auth 401) x seven client value shapes (absent, simple, 200 characters, inner space, non-ASCII, empty, two header lines) x backend silent or echoing. Enabled: the header is on every response, equals the first client-supplied value when there is one, and equals what the backend received; disabled: neither generated nor altered in either direction. Uniqueness is decided relative to the entropy source: crypto/rand.Reader is replaced by enumerating sources (every single-byte variation of a 12-byte block; 40 000 consecutive counter blocks) and every generated ID must be distinct; 2-3 clients generating IDs concurrently through the middleware in front of the real balancer are explored under all interleavings up to the preemption bound in a normal and in a -race build (shared scratch state in the generator is a data race on an explored schedule).",
         note="The statistical claim that 10^5 generations never collide is a property of crypto/rand, not of Helios, and is not claimed; the tutorial 'request-id' plugin, which by its documentation assigns its own ID to every request, is a transforming plugin and outside this property.",
         jobs=[
             dict(name="c16w", part="W", pkg=MAIN, run="TestVerifC16", mode="plain", gomaxprocs=4, shards=dict(quick=12, thorough=16), timeout=dict(quick=600, thorough=3000)),
+            dict(name="c16s", part="S", pkg=LB, run="TestVerifC16S", mode="instr", shards=dict(quick=2, thorough=3), timeout=dict(quick=600, thorough=3000)),
+            dict(name="c16race", part="Race", pkg=LB, run="TestVerifC16S", mode="instr", race=True, shards=dict(quick=2, thorough=3), timeout=dict(quick=600, thorough=3000)),
             dict(name="c16u", part="Unique", pkg=MAIN, run="TestVerifC16Unique", mode="plain", gomaxprocs=2, shards=1, timeout=dict(quick=600, thorough=3000)),
         ],
         assumptions=[],
